@@ -89,6 +89,10 @@ def main():
     for p, idl in idls.items():
         for a in idl.accounts: owner_of.setdefault(a, p)
     specs, skipped = [], []
+    try:
+        expected = json.load(open(os.path.join(os.path.dirname(os.path.abspath(__file__)), "c19_expected_roles.json")))
+    except (OSError, ValueError) as e:
+        die(f"cannot read c19_expected_roles.json: {e}")
     for pname, root, modname in G.PROGRAMS:
         lib = Src(f"{root}/src/lib.rs")
         files = [Src(f) for f in G.rs_files(root)]
@@ -103,8 +107,14 @@ def main():
         iix = {i["name"]: i for i in idl.d["instructions"]}
         for f in lib.fns(*mod):
             name = f["name"]
-            roles = attr.get((pname, name))
-            if roles is None: continue
+            # the REVIEWED expectation (translator/c19_expected_roles.json) decides which instructions are
+            # exercised and with which required roles — NOT the attribute currently in the source, so that a
+            # dropped or changed attribute is found by the harness oracle with a concrete call
+            exp = expected.get(f"{pname}::{name}")
+            roles, pinned = (exp["roles"], exp["reachable"]) if exp else (None, False)
+            if roles is None:
+                roles = attr.get((pname, name))
+                if roles is None: continue
             try:
                 if name not in iix: raise Unsupported("not in the IDL")
                 ii = iix[name]
@@ -204,7 +214,7 @@ def main():
                         acc["pda"] = dict(seeds=seeds, program=prog)
                     accounts.append(acc)
                 args = b"".join(idl.zero(x["type"]) for x in ii["args"])
-                specs.append(dict(program=pname, program_id=idl.address, name=name, disc=ii["discriminator"], args=list(args), roles=roles, accounts=accounts))
+                specs.append(dict(program=pname, program_id=idl.address, name=name, disc=ii["discriminator"], args=list(args), roles=roles, reachable=pinned, accounts=accounts))
             except Unsupported as e:
                 skipped.append(dict(program=pname, name=name, why=str(e)))
     text = json.dumps(dict(specs=specs, skipped=skipped), indent=0, sort_keys=True)
